@@ -25,8 +25,17 @@ type World struct {
 	Kids          map[string]string // role -> kid value for victim, attacker and "unknown" (well-formed, resolvable by nobody)
 	Header        Header            // protected members of the valid token besides alg/kid/jwk (typ, cty, crit, …), in order
 	Payload       []byte
-	JWKKid        bool // embedded JWKs carry a "kid" member
-	JWKAlg        bool // embedded JWKs carry an "alg" member
+	JWKKid        bool   // embedded JWKs carry a "kid" member
+	JWKAlg        bool   // embedded JWKs carry an "alg" member
+	RSAAlg        string // algorithm the valid token uses with an RSA key (default PS256)
+}
+
+// nat is the algorithm the valid token of this world uses with key k.
+func (w World) nat(k Key) string {
+	if k.Type == RSA && w.RSAAlg != "" {
+		return w.RSAAlg
+	}
+	return k.NaturalAlg()
 }
 
 // SigSpec is the recipe of one signature entry.
@@ -186,9 +195,9 @@ func Build(w World, v Variant) Built {
 			case "hmac":
 				alg = "HS256"
 			case "junk":
-				alg = keys[Victim].NaturalAlg()
+				alg = w.nat(keys[Victim])
 			default:
-				alg = signerKey.NaturalAlg()
+				alg = w.nat(signerKey)
 			}
 		}
 		if alg != "-" {
@@ -254,7 +263,7 @@ func Build(w World, v Variant) Built {
 			role, priv := jwkSel[:i], jwkSel[i+1:] == "priv"
 			var extra []Member
 			if w.JWKAlg {
-				extra = append(extra, Str("alg", keys[role].NaturalAlg()))
+				extra = append(extra, Str("alg", w.nat(keys[role])))
 			}
 			if w.JWKKid {
 				k := w.Kids[role]
@@ -340,7 +349,7 @@ func Build(w World, v Variant) Built {
 			} else {
 				// the header names an algorithm of another family (or none / a MAC): the key holder's real signature
 				// is there, but no verifier that honours the header can validate it
-				b.sig, _ = SignRaw(signerKey, signerKey.NaturalAlg(), input)
+				b.sig, _ = SignRaw(signerKey, w.nat(signerKey), input)
 			}
 		case "hmac":
 			vk := keys[Victim]
@@ -390,7 +399,7 @@ func Build(w World, v Variant) Built {
 				case "alg-none":
 					b.unprot = append(b.unprot, Str("alg", "none"))
 				case "alg-natural":
-					b.unprot = append(b.unprot, Str("alg", keys[claimRole].NaturalAlg()))
+					b.unprot = append(b.unprot, Str("alg", w.nat(keys[claimRole])))
 				case "jwk-attacker":
 					b.unprot = append(b.unprot, Member{"jwk", keys[Attacker].JWK(false).JSON()})
 				case "jwk-signer":
@@ -458,7 +467,7 @@ func Build(w World, v Variant) Built {
 	switch ser {
 	case "compact":
 		if len(sigs) == 0 {
-			h := Header{Str("alg", keys[Victim].NaturalAlg())}
+			h := Header{Str("alg", w.nat(keys[Victim]))}
 			if ref == "kid" {
 				h = append(h, Str("kid", w.Kids[Victim]))
 			}
